@@ -19,7 +19,7 @@ OPERATORS = ['(', ')', '[', ']', '{', '}', ',', ':', '.', ';', '@', '=', '->', '
 STRING_OPENERS = ['"', "'", '"""', "'''"]
 STRING_PREFIXES = ['', 'b', 'B', 'r', 'R', 'u', 'U', 'f', 'F', 'rb', 'bR', 'Rb', 'BR', 'rf', 'fr',
                    'Rf', 'fR', 'FR', 'ur', 'bf', 'fb', 'ru']
-NUMBERS = ['0', '1', '10', '1_0', '0_0', '1__0', '1_', '0x1f', '0X_f', '0o17', '0O8', '0b101',
+NUMBERS = ['09e1', '09j', '007J', '01j', '0_1j', '08e+3', '010e1j', '00_7E-2J', '09.5', '1.5j', '1.J', '.5j', '1e3j', '2.5E-3J', '0', '1', '10', '1_0', '0_0', '1__0', '1_', '0x1f', '0X_f', '0o17', '0O8', '0b101',
            '0B2', '1.', '.5', '1.5', '1e5', '1E-5', '1.e5j', '1j', '1J', '0_7', '07', '1e', '0x',
            '1_000.000_1', '1if', '1_a', '1.0_', '0xg', '1e+']
 NAMES = ['x', 'y', 'foo', 'l', 'O', 'I', 'a1', '_', '__x__', 'é', 'Ünï', '名前', '²', 'x²', 'ª', 'á',
@@ -33,7 +33,9 @@ COMMENTS = ['#', '# c', '#\n', '# comment\n', '#\f', '#\fx', '# \f\n', '#!\n', '
 FSTRING_BITS = ['{', '}', '{{', '}}', '!r', '!s', '!a', '!', ':', ':>10', ':{', '=', '{x}', '{x!r}',
                 '{x:>{w}}', '{x=}', '{x:{y:{z}}}', "{'", '{"', '\\{', '\\N{DASH}', '\\N{', '{\n', '{#',
                 '{*x}', '{lambda x:1}', '{x:=1}', '{x!r:^{w}.{p}}', '{:}', '{!r}', '{ }', '{;}', '{\\']
-STMT_STARTS = ['def f(', 'def f():', 'class A:', 'class A(', 'if x:', 'elif x:', 'else:', 'for x in y:',
+STMT_STARTS = ['def f(a, /, b=1, *, c):', 'def f(a, /):', 'lambda a, /, b: ', 'def f(a, b=1, /,):', 'import a as b, c', 'from __future__ import *',
+               'try:\n  pass\nfinally:\n  continue', 'for x in y:\n try:\n  pass\n finally:\n  continue\n', '[(x := 1) for [a, b] in c]', 'async with a:\n  return 1',
+               'def f(', 'def f():', 'class A:', 'class A(', 'if x:', 'elif x:', 'else:', 'for x in y:',
                'while x:', 'try:', 'except:', 'except E as e:', 'finally:', 'with a as b:', 'async def f():',
                'async for x in y:', 'async with a:', '@dec', 'lambda:', 'lambda x, *a, **k: ', 'return ',
                'yield ', 'yield from ', 'await ', 'import a.b as c', 'from . import x', 'from .. a import (b,',
@@ -253,6 +255,48 @@ def mutated(draw, base, max_edits=3, weights=None):
     return text
 
 
+_snippets = None
+
+
+def semantic_snippets():
+    """Upstream's list of syntactically/semantically invalid snippets (test/failing_examples.py): each one triggers a
+    specific rule of the error finder.  Used as seeds for mutation, never as expectations."""
+    global _snippets
+    if _snippets is None:
+        res = []
+        path = os.path.join(REPO, 'test', 'failing_examples.py')
+        try:
+            import importlib.util
+            spec = importlib.util.spec_from_file_location('_vf_failing_examples', path)
+            mod = importlib.util.module_from_spec(spec)
+            spec.loader.exec_module(mod)
+            for name in dir(mod):
+                v = getattr(mod, name)
+                if isinstance(v, list) and v and all(isinstance(x, str) for x in v):
+                    res.extend(v)
+        except Exception:
+            res = []
+        res = sorted(set(res))
+        _snippets = res or ['x = 1\n']
+    return _snippets
+
+
+def snippet():
+    return st.integers(0, 10 ** 6).map(lambda i: semantic_snippets()[i % len(semantic_snippets())])
+
+
+@st.composite
+def derived_text(draw):
+    """A random sentence of one of the shipped grammars (G-DERIV), rendered with generated layout."""
+    from . import deriv as D
+    v = draw(st.sampled_from(VERSIONS))
+    m = D.model(v)
+    ch = D.Choices(draw(st.lists(st.integers(0, 255), min_size=10, max_size=100)))
+    tree = m.derive('file_input', ch, draw(st.integers(3, 8)))
+    layout = draw(st.one_of(st.just([]), st.lists(st.integers(0, 255), min_size=1, max_size=40)))
+    return D.Renderer(m, D.Choices(layout), plain=not layout).render(D.terminals(tree))[0]
+
+
 def version():
     return st.sampled_from(VERSIONS)
 
@@ -268,6 +312,11 @@ def adversarial_text(max_frags=25, corpus_kinds=('repo',), weights=None, nest_de
         corpus_window(corpus_kinds),
         nested(nest_depth).map(lambda t: t[0]),
         st.builds(lambda a, b, c: a + b + c, soup(6, weights), nested(12).map(lambda t: t[0]), soup(6, weights)),
+        derived_text(),
+        mutated(derived_text(), max_edits=2, weights=weights),
+        snippet(),
+        mutated(snippet(), max_edits=2, weights=weights),
+        st.builds(lambda a, b, nl: a + nl + b, snippet(), snippet(), st.sampled_from(['\n', '\n\n', '; ', '\r\n'])),
     )
 
 
